@@ -31,6 +31,15 @@ func genLongStr(g *Gen, opts *SanOpts) string {
 				}
 			}
 		}
+		// code points that equal an allowed extra character after truncation to
+		// 7, 8 or 16 bits (table-driven implementations index by a narrower type)
+		for _, c := range vc.Chars {
+			for _, x := range []rune{c & 0x7f, c & 0xff, c & 0xffff} {
+				if x > 0 && x != c && utf8.ValidRune(x) {
+					frag = append(frag, string(x))
+				}
+			}
+		}
 	}
 	valid := g.Bool(25)
 	for b.Len() < n {
